@@ -56,7 +56,14 @@ def check_noise(case):
     kw = {"snr_in_db": db}
     if std is not None:
         kw["std"] = std
-    snr_arg = None if snr is None else (snr if not isinstance(snr, list) else (list(snr) if case.get("snr_list") else np.array(snr, dtype=float)))
+    sdt = case.get("snr_dtype")
+    if snr is None:
+        snr_arg = None
+    elif isinstance(snr, list):
+        snr_arg = list(snr) if case.get("snr_list") else np.array(snr, dtype=sdt or float)
+    else:
+        snr_arg = snr if not sdt else np.dtype(sdt).type(snr)
+    snr_keep = snr_arg.copy() if isinstance(snr_arg, np.ndarray) else None
     fails = []
     with Seam() as s:
         try:
@@ -71,6 +78,8 @@ def check_noise(case):
             return [fail("raised", {"exception": repr(e)}, dict(key, exc=type(e).__name__))], None
     if not A.same_bytes(arr, keep):
         fails.append(fail("caller-array-modified", None, key))
+    if snr_keep is not None and not A.same_bytes(snr_arg, snr_keep):
+        fails.append(fail("caller-snr-array-modified", {"before": snr_keep, "after": snr_arg}, key))
     if len(s.calls) != 1:
         return fails + [fail("generator-calls", {"calls": len(s.calls)}, key)], None
     loc, scale, size = s.calls[0]
@@ -85,7 +94,8 @@ def check_noise(case):
         snrs = snr if isinstance(snr, list) else [snr] * len(fa)
         exp = [math.sqrt(power / (10 ** (q / 10.0) if db else q)) for q in snrs]
     sc = np.broadcast_to(np.asarray(scale, dtype=float), (len(fa),))
-    if any(abs(float(p) - q) > 1e-9 * max(1.0, q) for p, q in zip(sc, exp)):
+    rtol = 1e-6 if sdt == "float32" else 1e-9      # a float32 request is honoured to float32 precision
+    if any(abs(float(p) - q) > rtol * max(1.0, q) for p, q in zip(sc, exp)):
         fails.append(fail("noise-scale-definition", {"observed": sc, "expected": exp}, key))
     out = np.asarray(out, dtype=float)
     if out.shape != (len(fa),):
@@ -93,8 +103,13 @@ def check_noise(case):
     else:
         u = np.array([1.0 if i % 2 == 0 else -1.0 for i in range(len(fa))])
         expo = np.array(fa) + np.array(exp) * u
-        if np.any(np.abs(out - expo) > 1e-9 * np.maximum(1.0, np.abs(expo))):
+        if np.any(np.abs(out - expo) > rtol * np.maximum(1.0, np.abs(expo))):
             fails.append(fail("not-additive", {"observed": out, "expected": expo}, key))
+    if path == "process" and not fails:
+        with Seam() as s2:
+            out2 = noise_gauss(arr, snr=snr_arg, **kw)
+        if np.asarray(out2).tobytes() != out.tobytes():
+            fails.append(fail("second-call-differs", {"first": out, "second": out2}, key))
     if ox is not None and [float(v) for v in ox] != [float(v) for v in (np.arange(len(fa)) * 0.5 + 1)]:
         fails.append(fail("x-changed", None, key))
     return fails, (path, db, isinstance(snr, list), snr is None, tuple(round(float(v), 9) for v in sc))
@@ -141,12 +156,21 @@ def harnesses(tier, seed):
                 snr, db, std = forms[fi]
                 judge(ctx, check_noise, {"a": list(a), "snr": snr, "db": db, "std": std, "path": path}, bulk=True,
                       nontrivial=len(set(a)) > 1)
+                if snr is not None and float(snr) == int(snr) and snr >= 0 and len(a) <= 3:
+                    # the same request written with NumPy integer / low-precision scalar types
+                    for sdt in ("uint8", "int32", "float32", "uint16"):
+                        judge(ctx, check_noise, {"a": list(a), "snr": int(snr), "db": db, "std": std, "path": path, "snr_dtype": sdt},
+                              bulk=True, nontrivial=len(set(a)) > 1)
             else:
                 db = fi == len(forms)
                 snr = [(10.0 + 5 * i) if db else (1.0 + i) for i in range(k)]
                 for as_list in (False, True):
                     judge(ctx, check_noise, {"a": list(a), "snr": snr, "db": db, "std": None, "path": path, "snr_list": as_list},
                           bulk=True, nontrivial=len(set(a)) > 1)
+                if len(a) <= 3:
+                    for sdt in ("uint8", "int64", "float32"):
+                        judge(ctx, check_noise, {"a": list(a), "snr": [int(v) for v in snr], "db": db, "std": None, "path": path,
+                                                 "snr_list": False, "snr_dtype": sdt}, bulk=True, nontrivial=len(set(a)) > 1)
         if k == 3 and path == "weaver" and fi == 0:
             ctx.sample({"signals": "V+-^3 \\ {0}", "snr": forms[fi][0], "db": True, "path": path})
 
